@@ -290,6 +290,9 @@ def build_pools(ctx):
         ("d3", pick(docs.dn(3, docs.PREFIX3, docs.BODY3), 800), ()),
         ("families", pick(docs.families(), 200), ()),
         ("edges", pick(docs.link_edges() + docs.leaf_edges(), 400), ()),
+        ("container-pairs", pick(docs.container_pairs(), 500), ()),
+        ("marker-variants", pick(docs.corpus_marker_variants(), 800), ()),
+        ("multi-pairs", pick(docs.multi_pairs(), 400), ()),
         ("inline-emph", pick(docs.inline_emph(), 1500), ()),
         ("inline-links", pick(docs.inline_links(), 800), ()),
         ("ext-corpus", list(EXT_CORPUS), EXTS),
